@@ -290,6 +290,19 @@ def apply_op(fam, m, op, state):
         Xf = f.Xf
         yf = f.yf
         m.get_fantasy_model(Xf, yf)
+    elif op == "var_fantasy":
+        # online variational conditioning: an ExactGP over the inducing points + the new data, with injected caches; its
+        # first prediction (served from the injected caches) against the one it recomputes after train()/eval()
+        fm = m.get_fantasy_model(f.Xf, f.yf)
+        fm.eval()
+        with torch.no_grad():
+            o1 = fm(f.xs)
+            p1 = (o1.mean.clone(), o1.covariance_matrix.clone())
+            fm.train()
+            fm.eval()
+            o2 = fm(f.xs)
+            p2 = (o2.mean.clone(), o2.covariance_matrix.clone())
+        return ("selfcheck", p1, p2)
     elif op == "prior":
         if exact:
             with S.prior_mode(True):
